@@ -24,13 +24,14 @@ const c33Mod = "skeleton"
 type c33Lister struct{ w *c33World }
 
 func (l *c33Lister) ListCompleted(ctx context.Context) ([]discovery.SegmentRef, error) {
-	n, err := l.w.OnList()
+	idx, err := l.w.OnList()
 	if err != nil {
 		return nil, err
 	}
-	out := make([]discovery.SegmentRef, 0, n)
-	for _, s := range l.w.p.Segs[:n] {
-		out = append(out, discovery.SegmentRef{Topic: c33Topic, Partition: c33Partition, BaseOffset: s.Base, SegmentKey: s.Key, IndexKey: s.Key + ".index"})
+	out := make([]discovery.SegmentRef, 0, len(idx))
+	for _, i := range idx {
+		s := l.w.p.Segs[i]
+		out = append(out, discovery.SegmentRef{Topic: c33Topic, Partition: s.Part, BaseOffset: s.Base, SegmentKey: s.Key, IndexKey: s.Key + ".index"})
 	}
 	return out, nil
 }
@@ -44,7 +45,7 @@ func (d *c33Decoder) Decode(ctx context.Context, segmentKey, indexKey string) ([
 	}
 	out := make([]decoder.Batch, 0, s.N)
 	for o := s.Base; o < s.Base+int64(s.N); o++ {
-		out = append(out, decoder.Batch{Topic: c33Topic, Partition: c33Partition, Offset: o, Payload: []byte("v-" + strconv.FormatInt(o, 10))})
+		out = append(out, decoder.Batch{Topic: c33Topic, Partition: s.Part, Offset: o, Payload: []byte("v-" + strconv.FormatInt(o, 10))})
 	}
 	return out, nil
 }
@@ -55,18 +56,21 @@ type c33Store struct {
 }
 
 func (s *c33Store) ClaimLease(ctx context.Context, topic string, partition int32, ownerID string) (checkpoint.Lease, error) {
-	if err := s.w.OnClaim(); err != nil {
+	if err := s.w.OnClaim(partition); err != nil {
 		return checkpoint.Lease{}, err
 	}
 	return checkpoint.Lease{Topic: topic, Partition: partition, OwnerID: ownerID}, nil
 }
-func (s *c33Store) RenewLease(ctx context.Context, lease checkpoint.Lease) error   { return nil }
-func (s *c33Store) ReleaseLease(ctx context.Context, lease checkpoint.Lease) error { return nil }
+func (s *c33Store) RenewLease(ctx context.Context, lease checkpoint.Lease) error { return s.w.OnRenew() }
+func (s *c33Store) ReleaseLease(ctx context.Context, lease checkpoint.Lease) error {
+	s.w.OnRelease()
+	return nil
+}
 func (s *c33Store) LoadOffset(ctx context.Context, topic string, partition int32) (checkpoint.OffsetState, error) {
 	if s.inner != nil {
 		return s.inner.LoadOffset(ctx, topic, partition)
 	}
-	o, err := s.w.OnLoad()
+	o, err := s.w.OnLoad(partition)
 	if err != nil {
 		return checkpoint.OffsetState{}, err
 	}
@@ -76,7 +80,7 @@ func (s *c33Store) CommitOffset(ctx context.Context, st checkpoint.OffsetState) 
 	if s.inner != nil {
 		return s.inner.CommitOffset(ctx, st)
 	}
-	return s.w.OnCommit(st.Offset)
+	return s.w.OnCommit(st.Partition, st.Offset)
 }
 
 type c33Sink struct{ w *c33World }
@@ -86,7 +90,10 @@ func (s *c33Sink) Write(ctx context.Context, records []sink.Record) error {
 	for i, r := range records {
 		offs[i] = r.Offset
 	}
-	return s.w.OnSink(offs)
+	if len(records) == 0 {
+		return nil
+	}
+	return s.w.OnSink(records[0].Partition, offs)
 }
 func (s *c33Sink) Close(ctx context.Context) error { return nil }
 
